@@ -98,7 +98,11 @@ def make_site(rng, i, depth):
                 old_items.append((k, ov))  # never accessed
             elif r < 0.8:
                 old_items.append((k, ov))
-                obs += [(gen.expr(k), gen.expr(x)) for x in xs]
+                if rng.random() < 0.15:
+                    obs.append((gen.expr(k), "ACCESS_ONLY"))  # fetched (e.g. into a variable) but not compared in this run
+                    s["access_only"] = True
+                else:
+                    obs += [(gen.expr(k), gen.expr(x)) for x in xs]
             else:
                 obs += [(gen.expr(k), gen.expr(x)) for x in xs]  # key not in previous value
         if not obs:
